@@ -1,6 +1,8 @@
 """C08 — formula text is a faithful infix rendering of the stored post-fix expression."""
 from __future__ import annotations
 
+import json
+import os
 import re
 import warnings
 from collections import Counter
@@ -646,6 +648,134 @@ def check_tree(ctx, real, t, fmap, req, out):
         report(ctx, "render-nondeterministic", text[:80], {"tree": t})
 
 
+
+# --------------------------------------------------------------------------- document level: one stored formula, many hosts
+
+def gen_filled_doc(rng):
+    """fill-right / fill-down / block families of one relative formula each (harness/formuladocs.py)"""
+    import formuladocs as F
+    nrows, ncols = rng.randrange(7, 11), rng.randrange(6, 10)
+    families, used = [], set()
+    for _ in range(rng.randrange(5, 9)):
+        t = F.gen_expr(rng, nrows, ncols)
+        shape = rng.choice(("right", "right", "down", "block"))
+        r0, c0 = rng.randrange(nrows), rng.randrange(ncols)
+        if shape == "right":
+            cand = [(r0, c) for c in range(ncols)]
+        elif shape == "down":
+            cand = [(r, c0) for r in range(nrows)]
+        else:
+            cand = [(r, c) for r in range(r0, min(nrows, r0 + 3)) for c in range(c0, min(ncols, c0 + 3))]
+        hosts = [h for h in cand if h not in used and F.in_table(t, h, nrows, ncols)]
+        if len(hosts) >= 2:
+            families.append((t, hosts))
+            used |= set(hosts)
+    return F.FilledDoc(nrows, ncols, families)
+
+
+def stored_well_paren(t) -> bool:
+    """the stored tree prints without extra parentheses: operands of a binary operator bind at least as tightly (left,
+    all operators associate to the left) / more tightly (right) than the operator itself."""
+    k = t[0]
+    if k == "bin":
+        p = GLYPH_PREC[t[1]]
+        l, r = t[2], t[3]
+        if l[0] == "bin" and GLYPH_PREC[l[1]] < p:
+            return False
+        if r[0] == "bin" and GLYPH_PREC[r[1]] <= p:
+            return False
+        return stored_well_paren(l) and stored_well_paren(r)
+    if k in ("paren", "call"):
+        return all(stored_well_paren(e) for e in t[-1])
+    return True
+
+
+def check_filled_doc(ctx, spec, fmap, rng, where=None):
+    """every host of every shared formula, read in several orders from the saved file and on the open document: the text
+    must denote the stored expression AT THAT HOST (independent reading of the stored nodes vs independent parser of the
+    text) and must not depend on the reading history.  Returns a description (used by replay)."""
+    import formuladocs as F
+    res = {"hosts": 0, "shared_keys": 0, "texts": 0, "writer_refused": 0, "unsupported": 0, "problems": []}
+    with F.TempDir() as d:
+        doc, table, done = F.build_from_spec(spec)
+        res["writer_refused"] = sum(1 for _h, _t, e in done if e)
+        open_texts = {}
+        for h in F.formula_hosts(table):
+            try:
+                open_texts[h] = [F.read(table, h)]
+            except Exception as e:  # noqa: BLE001
+                open_texts[h] = ["!raised " + exc_name(e)]
+        path = os.path.join(d, "filled.numbers")
+        doc.save(path)
+        stored = F.stored_nodes(path)
+        hosts, got, iso = F.read_orders(path, rng)
+    got["open-document"] = open_texts
+    got["isolated"] = {h: [t] for h, t in iso.items()}
+    keys = {}
+    for h, (k, _n) in stored.items():
+        keys.setdefault(k, []).append(h)
+    res["hosts"] = len(hosts)
+    res["shared_keys"] = sum(1 for v in keys.values() if len(v) > 1)
+    for h in hosts:
+        if h not in stored:
+            continue
+        try:
+            want = F.stored_tree(stored[h][1], h, fmap)
+        except F.Unsupported as e:
+            res["unsupported"] += 1
+            res.setdefault("unsupported_why", {}).setdefault(str(e), 0)
+            res["unsupported_why"][str(e)] += 1
+            continue
+        if not stored_well_paren(want):
+            # outside C08's "well-formed stored expression": an operator whose operand needs parentheses is stored without
+            # the LIST node Numbers writes for them (the undocumented formula setter drops parentheses)
+            res["unsupported"] += 1
+            continue
+        seen = {}
+        for order, per in got.items():
+            for text in per.get(h, []):
+                res["texts"] += 1
+                seen.setdefault(text, order)
+                inp = {"filled_doc": spec, "host": list(h), "order": order}
+                if text is None or text.startswith("!raised"):
+                    res["problems"].append(("render-raises", f"host {F.a1(*h)} read in order {order}: {text}", inp))
+                    continue
+                try:
+                    dd = first_diff(parse_text(text), want)
+                except ParseError as e:
+                    res["problems"].append(("text-unparseable", f"host {F.a1(*h)} ({order}): {text!r}: {e}", inp))
+                    continue
+                if dd:
+                    res["problems"].append(("text-denotes-other-expression:" + dd[0],
+                                            f"host {F.a1(*h)} shares stored formula {stored[h][0]} with "
+                                            f"{[F.a1(*x) for x in keys[stored[h][0]] if x != h][:6]}; read in order "
+                                            f"{order!r} it reports {text[:100]!r}: {dd[1]}", inp))
+        if len(seen) > 1:
+            res["problems"].append(("formula-text-depends-on-read-history",
+                                    f"host {F.a1(*h)}: " + "; ".join(f"{o}: {t!r}" for t, o in seen.items()),
+                                    {"filled_doc": spec, "host": list(h), "order": "all"}))
+    return res
+
+
+def doc_level_phase(ctx, fmap):
+    rng = ctx.rng
+    ndocs = 3 if ctx.quick else 30
+    tot = {"hosts": 0, "shared_keys": 0, "texts": 0, "writer_refused": 0, "unsupported": 0}
+    for _ in range(ndocs):
+        spec = gen_filled_doc(rng).spec()
+        res = check_filled_doc(ctx, spec, fmap, rng)
+        for k in tot:
+            tot[k] += res[k]
+        for sig, what, inp in res["problems"]:
+            report(ctx, sig, what, inp)
+        ctx.mark(("filled-doc", json.dumps(spec, sort_keys=True)[:200]))
+    ctx.count("documents with one stored formula shared by several host cells (fill right / down / block through the public "
+              "formula setter), every host read through Cell.formula on the open document, and from the saved file "
+              "isolated / forward / reverse / column-major / shuffled with repeats: text vs independent reading of the "
+              "stored nodes at that host", tot["texts"])
+    ctx.extra["document_level"] = dict(tot, documents=ndocs)
+
+
 def run(ctx: Ctx):
     from numbers_parser.formula import number_to_str
     from numbers_parser.generated.functionmap import FUNCTION_MAP
@@ -872,6 +1002,9 @@ def run(ctx: Ctx):
                 out.append("err " + exc_name(e))
     ctx.correspond("DATE_NODE over datetime's whole range (edges + seeded)", req, out)
 
+    # --- document level: stored formulas shared by several host cells, read in different orders ---------------
+    doc_level_phase(ctx, fmap)
+
 
 def replay(data):
     from numbers_parser.formula import number_to_str
@@ -881,6 +1014,13 @@ def replay(data):
         x = float(i["float_repr"])
         s = number_to_str(x)
         res = {"repr": repr(x), "number_to_str": s, "denotes_same_value": Decimal(s) == Decimal(repr(x))}
+    if "filled_doc" in i:
+        import random
+        from numbers_parser.generated.functionmap import FUNCTION_MAP
+        r = check_filled_doc(None, i["filled_doc"], dict(FUNCTION_MAP), random.Random(0))
+        res = {k: v for k, v in r.items() if k != "problems"}
+        res["problems"] = [[sig, what] for sig, what, inp in r["problems"] if inp["host"] == i.get("host") or i.get("order") == "all"][:10]
+        return res
     if "tree" in i:
         from numbers_parser.generated.functionmap import FUNCTION_MAP
 
